@@ -4784,7 +4784,9 @@ class QNTSimplifyMacro(Macro):
         if not lhs.is_forall() and not lhs.is_exists():
             raise VeriTException("qnf_simplify", "lhs should be a quantification")
         
-        _, l_bd = lhs.strip_quant()
+        l_vars, l_bd = lhs.strip_quant()
+        if any(l_bd.occurs_var(v) for v in l_vars):
+            raise VeriTException("qnf_simplify", "a quantified variable occurs in the body")
         if l_bd == rhs:
             return Thm(goal)
         else:
